@@ -583,6 +583,90 @@ theorem planCode_exec (L : Layout) (op : BOp) (p : Plan) (s : Cpu) (hz : p.left 
     · rw [a3, hval, m2, hσ1]
       simp only [evalPlan, hvt', Bool.false_eq_true, if_false]
 
+/-! shifts (stage 11) -/
+
+theorem shVal_succ (left : Bool) (k : Nat) (a : Byte) : shVal left (k + 1) a = shVal left k (shVal left 1 a) := by
+  unfold shVal
+  cases left
+  · simp only [Bool.false_eq_true, if_false]
+    rw [Nat.add_comm, BitVec.shiftRight_add]
+  · simp only [if_true]
+    rw [Nat.add_comm, BitVec.shiftLeft_add]
+
+theorem shifts_exec (left : Bool) : ∀ (k : Nat) (s : Cpu), ZA s →
+    ∃ s', execSeq s (List.replicate k ((if left then Mn.ASL else Mn.LSR), Opd.none)) = some s' ∧ srcOf s' = srcOf s ∧
+      s'.a = shVal left k s.a ∧ ZA s' := by
+  intro k
+  induction k with
+  | zero => intro s hz; exact ⟨s, by simp [execSeq], rfl, by simp [shVal], hz⟩
+  | succ k ih =>
+    intro s hz
+    have h1 : ∃ s1, s.exec (if left then Mn.ASL else Mn.LSR) Opd.none = some s1 ∧ srcOf s1 = srcOf s ∧ s1.a = shVal left 1 s.a ∧ ZA s1 := by
+      cases left
+      · refine ⟨_, by simp [Cpu.exec, Cpu.rmw, Cpu.gLSR]; rfl, ?_, ?_, ?_⟩ <;> simp [srcOf, shVal, ZA, Cpu.setNZ]
+      · refine ⟨_, by simp [Cpu.exec, Cpu.rmw, Cpu.gASL]; rfl, ?_, ?_, ?_⟩ <;> simp [srcOf, shVal, ZA, Cpu.setNZ]
+    obtain ⟨s1, e1, m1, a1, z1⟩ := h1
+    obtain ⟨s2, e2, m2, a2, z2⟩ := ih s1 z1
+    refine ⟨s2, ?_, by rw [m2, m1], by rw [a2, a1]; exact (shVal_succ left k s.a).symm, z2⟩
+    simp only [List.replicate_succ, execSeq, e1, Option.bind_some]
+    exact e2
+
+/-- the code of a shift runs to what `evalShift` says; Z describes the accumulator afterwards -/
+theorem shiftCode_exec (L : Layout) (st : ES) (t : ET) (left : Bool) (k : Nat) (s : Cpu) (hz : t = .acc → ZA s) :
+    ∃ s', execSeq s (shiftCode Opd.none (opd L) st t left k) = some s' ∧ srcOf s' = (evalShift L (srcOf s) s.a st t left k).1 ∧
+      s'.a = (evalShift L (srcOf s) s.a st t left k).2 ∧ ZA s' := by
+  -- save the accumulator
+  have h1 : ∃ s1, execSeq s (if shSave st t then [(Mn.PHA, Opd.none)] else []) = some s1 ∧
+      srcOf s1 = (if shSave st t then pushS (srcOf s) s.a else srcOf s) ∧ s1.a = s.a ∧ s1.f = s.f := by
+    by_cases hs : shSave st t = true
+    · refine ⟨s.push s.a, ?_, ?_, by simp [Cpu.push], by simp [Cpu.push]⟩
+      · rw [if_pos hs]; exact pha_exec s
+      · rw [if_pos hs]; exact srcOf_push s s.a
+    · have hs' : shSave st t = false := by simpa using hs
+      exact ⟨s, by simp [hs', execSeq], by simp [hs'], rfl, rfl⟩
+  obtain ⟨s1, e1, m1, a1, f1⟩ := h1
+  -- the operand into the accumulator
+  have h2 : ∃ s2, execSeq s1 (loadLeft Opd.none (opd L) t) = some s2 ∧ srcOf s2 = srcOf s1 ∧
+      s2.a = leftVal L (srcOf s1) s.a t ∧ ZA s2 := by
+    cases ht : t with
+    | atm x =>
+      obtain ⟨s2, e2, a2, m2, _, z2⟩ := loadA_exec L s1 x
+      exact ⟨s2, e2, m2, a2, z2⟩
+    | tmp =>
+      obtain ⟨s2, e2, m2, a2, z2⟩ := ldaTmp_exec L s1
+      exact ⟨s2, e2, m2, by simpa [leftVal] using a2, z2⟩
+    | acc =>
+      refine ⟨s1, by simp [loadLeft, execSeq], rfl, by simp [leftVal, a1], ?_⟩
+      have := hz ht
+      unfold ZA at this ⊢
+      rw [f1, a1]; exact this
+  obtain ⟨s2, e2, m2, a2, z2⟩ := h2
+  -- the shifts
+  obtain ⟨s3, e3, m3, a3, z3⟩ := shifts_exec left k s2 z2
+  by_cases hvt : shSave st t = true
+  · obtain ⟨s5, e5, m5, a5, z5⟩ := pla_exec ({ s3 with mem := s3.mem.write (L "cctmp") s3.a } : Cpu)
+    have hpre : srcOf ({ s3 with mem := s3.mem.write (L "cctmp") s3.a } : Cpu) =
+        setTmp L (srcOf s1) (shVal left k (leftVal L (srcOf s1) s.a t)) := by
+      have : srcOf ({ s3 with mem := s3.mem.write (L "cctmp") s3.a } : Cpu) = setTmp L (srcOf s3) s3.a := rfl
+      rw [this, m3, a3, m2, a2]
+    refine ⟨s5, ?_, ?_, ?_, z5⟩
+    · simp only [shiftCode, execSeq_append', e1, Option.bind_some, e2, e3]
+      rw [if_pos hvt, show [(Mn.STA, opd L tmp), (Mn.PLA, Opd.none)] = [(Mn.STA, opd L tmp)] ++ [(Mn.PLA, Opd.none)] from rfl,
+        execSeq_append', staTmp_exec]
+      simpa using e5
+    · rw [m5, hpre, m1]
+      simp only [evalShift, hvt, if_true]
+    · rw [a5, hpre, m1]
+      simp only [evalShift, hvt, if_true]
+  · have hvt' : shSave st t = false := by simpa using hvt
+    refine ⟨s3, ?_, ?_, ?_, z3⟩
+    · simp only [shiftCode, execSeq_append', e1, Option.bind_some, e2, e3]
+      simp [hvt', execSeq]
+    · rw [m3, m2, m1]
+      simp only [evalShift, hvt', Bool.false_eq_true, if_false]
+    · rw [a3, a2, m1]
+      simp only [evalShift, hvt', Bool.false_eq_true, if_false]
+
 theorem order_left_acc (op : BOp) (l r : ET) (h : (order op l r).1 = .acc) : l = .acc ∨ r = .acc := by
   unfold order at h
   split at h
@@ -638,6 +722,21 @@ theorem genE_acc {α : Type} (none : α) (r : Atom → α) : ∀ (e : GExpr) (st
           have := (plan_left hp).2
           rw [hst] at this
           exact ⟨fun _ => this, fun _ => this⟩
+
+  | sh e left k ih =>
+    intro st c t st' h
+    simp only [genE] at h
+    cases he : genE none r st e with
+    | none => simp [he] at h
+    | some x =>
+      obtain ⟨c1, t1, s1⟩ := x
+      simp only [he] at h
+      split at h
+      · simp only [Option.some.injEq, Prod.mk.injEq] at h
+        obtain ⟨_, _, hs⟩ := h
+        subst hs
+        exact ⟨fun _ => rfl, fun _ => rfl⟩
+      · cases h
 
 /-- the code of every accepted expression runs to `evalE` -/
 theorem genE_exec (L : Layout) : ∀ (e : GExpr) (st : ES) (c : List (Mn × Opd)) (t : ET) (st' : ES),
@@ -700,6 +799,31 @@ theorem genE_exec (L : Layout) : ∀ (e : GExpr) (st : ES) (c : List (Mn × Opd)
           · rw [ha3, hm2, ha2]
 
 
+  | sh e left k ih =>
+    intro st c t st' h s hz
+    simp only [genE] at h
+    cases he : genE Opd.none (opd L) st e with
+    | none => simp [he] at h
+    | some x =>
+      obtain ⟨c1, t1, s1⟩ := x
+      simp only [he] at h
+      by_cases hok : shiftOK s1 t1 k = true
+      · simp only [hok, if_true, Option.some.injEq, Prod.mk.injEq] at h
+        obtain ⟨hc, ht, hs⟩ := h
+        subst hc; subst ht; subst hs
+        obtain ⟨m1, q1, ev1, ex1, hm1, ha1, hz1⟩ := ih st c1 t1 s1 he s hz
+        have hacc := genE_acc Opd.none (opd L) e st c1 t1 s1 he
+        obtain ⟨m2, ex2, hm2, ha2, hz2⟩ := shiftCode_exec L s1 t1 left k m1 (fun h => hz1 (hacc.2 h))
+        refine ⟨m2, evalShift L q1.1 q1.2 s1 t1 left k, ?_, ?_, ?_, ?_, fun _ => hz2⟩
+        · simp only [evalE]
+          obtain ⟨σ1, a1⟩ := q1
+          simp only [ev1, hok, if_true]
+        · rw [execSeq_append', ex1]
+          simpa using ex2
+        · rw [hm2, hm1, ha1]
+        · rw [ha2, hm1, ha1]
+      · simp [hok] at h
+
 /-- what the generator decides (where the result is, its state, whether it gives up) does not depend on how
     operands are rendered -/
 theorem genE_kind {α β : Type} (n : α) (r : Atom → α) (n' : β) (r' : Atom → β) : ∀ (e : GExpr) (st : ES),
@@ -744,28 +868,54 @@ theorem genE_kind {α β : Type} (n : α) (r : Atom → α) (n' : β) (r' : Atom
             simp only [arithm]
             cases plan s2 tl op tr <;> simp
 
+  | sh e left k ih =>
+    intro st
+    have h1 := ih st
+    simp only [genE]
+    cases he : genE n r st e with
+    | none =>
+      cases he' : genE n' r' st e with
+      | none => simp
+      | some y => simp [he, he'] at h1
+    | some x =>
+      cases he' : genE n' r' st e with
+      | none => simp [he, he'] at h1
+      | some y =>
+        obtain ⟨c1, t1, s1⟩ := x
+        obtain ⟨c1', t1', s1'⟩ := y
+        simp only [he, he', Option.map_some, Option.some.injEq, Prod.mk.injEq] at h1
+        obtain ⟨ht, hs⟩ := h1
+        subst ht; subst hs
+        simp only
+        split <;> simp
+
+/-- what `ok` says for a compound expression -/
+theorem GExpr.ok_def (e : GExpr) (hne : ∀ a, e ≠ .atom a) :
+    e.ok = (match genE () (fun _ => ()) {} e with | some (_, .acc, _) => true | _ => false) := by
+  cases e with
+  | atom a => exact absurd rfl (hne a)
+  | bin l op rr => rfl
+  | sh e l k => rfl
+
 theorem genE_ok_iff {α : Type} (n : α) (r : Atom → α) (e : GExpr) (hne : ∀ a, e ≠ .atom a) :
     e.ok = true ↔ ∃ c st', genE n r {} e = some (c, .acc, st') := by
   have h := genE_kind () (fun _ => ()) n r e {}
-  cases e with
-  | atom a => exact absurd rfl (hne a)
-  | bin l op rr =>
-    simp only [GExpr.ok]
-    cases h1 : genE () (fun _ => ()) {} (.bin l op rr) with
-    | none =>
-      cases h2 : genE n r {} (.bin l op rr) with
-      | none => simp
-      | some y => simp [h1, h2] at h
-    | some x =>
-      cases h2 : genE n r {} (.bin l op rr) with
-      | none => simp [h1, h2] at h
-      | some y =>
-        obtain ⟨c, t, st'⟩ := x
-        obtain ⟨c', t', st''⟩ := y
-        simp only [h1, h2, Option.map_some, Option.some.injEq, Prod.mk.injEq] at h
-        obtain ⟨ht, hs⟩ := h
-        subst ht; subst hs
-        cases t <;> simp
+  rw [GExpr.ok_def e hne]
+  cases h1 : genE () (fun _ => ()) {} e with
+  | none =>
+    cases h2 : genE n r {} e with
+    | none => simp
+    | some y => simp [h1, h2] at h
+  | some x =>
+    cases h2 : genE n r {} e with
+    | none => simp [h1, h2] at h
+    | some y =>
+      obtain ⟨c, t, st'⟩ := x
+      obtain ⟨c', t', st''⟩ := y
+      simp only [h1, h2, Option.map_some, Option.some.injEq, Prod.mk.injEq] at h
+      obtain ⟨ht, hs⟩ := h
+      subst ht; subst hs
+      cases t <;> simp
 
 /-- an operand in the accumulator means `acc_in_use` -/
 theorem evalE_acc (L : Layout) : ∀ (e : GExpr) (σ : SrcSt) (a : Byte) (st : ES) (q : SrcSt × Byte) (t : ET) (st' : ES),
@@ -797,6 +947,21 @@ theorem evalE_acc (L : Layout) : ∀ (e : GExpr) (σ : SrcSt) (a : Byte) (st : E
         have := (plan_left hp).2
         rw [hst] at this
         exact ⟨fun _ => this, fun _ => this⟩
+
+  | sh e left k ih =>
+    intro σ a st q t st' h
+    simp only [evalE] at h
+    cases he : evalE L σ a st e with
+    | none => simp [he] at h
+    | some x =>
+      obtain ⟨⟨σ1, a1⟩, t1, s1⟩ := x
+      simp only [he] at h
+      split at h
+      · simp only [Option.some.injEq, Prod.mk.injEq] at h
+        obtain ⟨_, _, hs⟩ := h
+        subst hs
+        exact ⟨fun _ => rfl, fun _ => rfl⟩
+      · cases h
 
 /-- a plan uses the accumulator's content only when `acc_in_use` says there is one -/
 theorem evalPlan_acc_irrelevant (L : Layout) (σ : SrcSt) (a a' : Byte) (op : BOp) (st : ES) (l rt : ET) (p : Plan)
@@ -883,6 +1048,43 @@ theorem evalE_acc_irrelevant (L : Layout) : ∀ (e : GExpr) (σ : SrcSt) (a a' :
               rw [this]
               simp
 
+  | sh e left k ih =>
+    intro σ a a' st h
+    have h1 := ih σ a a' st h
+    simp only [evalE]
+    cases he : evalE L σ a st e with
+    | none =>
+      cases he' : evalE L σ a' st e with
+      | none => simp
+      | some y => simp [he, he'] at h1
+    | some x =>
+      cases he' : evalE L σ a' st e with
+      | none => simp [he, he'] at h1
+      | some y =>
+        obtain ⟨⟨σ1, a1⟩, t1, s1⟩ := x
+        obtain ⟨⟨σ1', a1'⟩, t1', s1'⟩ := y
+        simp only [he, he'] at h1
+        obtain ⟨hσ, ht, hs, ha⟩ := h1
+        subst hσ; subst ht; subst hs
+        simp only
+        have e1 := evalE_acc L e σ a st _ _ _ he
+        have heq : evalShift L σ1 a1 s1 t1 left k = evalShift L σ1 a1' s1 t1 left k := by
+          by_cases hacc : s1.acc = true
+          · rw [ha hacc]
+          · have hacc' : s1.acc = false := by simpa using hacc
+            have hne : t1 ≠ .acc := fun e => hacc (e1.2 e)
+            have hsv : shSave s1 t1 = false := by simp [shSave, hacc']
+            have hlv : leftVal L σ1 a1 t1 = leftVal L σ1 a1' t1 := by
+              cases t1 with
+              | atm x => rfl
+              | tmp => rfl
+              | acc => exact absurd rfl hne
+            simp only [evalShift, hsv, Bool.false_eq_true, if_false, hlv]
+        by_cases hok : shiftOK s1 t1 k = true
+        · simp only [hok, if_true]
+          rw [heq]; simp
+        · simp [hok]
+
 theorem evalPlan_sp (L : Layout) (σ : SrcSt) (a : Byte) (op : BOp) (p : Plan) : (evalPlan L σ a op p).1.sp = σ.sp := by
   have ht : ∀ τ : SrcSt, ∀ y, (tmpWrite L τ op y).sp = τ.sp := by
     intro τ y; unfold tmpWrite; split <;> rfl
@@ -896,6 +1098,15 @@ theorem evalPlan_sp (L : Layout) (σ : SrcSt) (a : Byte) (op : BOp) (p : Plan) :
       bv_omega
   · simp only [hs, if_false, Bool.false_eq_true, ht]
     split <;> rfl
+
+theorem evalShift_sp (L : Layout) (σ : SrcSt) (a : Byte) (st : ES) (t : ET) (left : Bool) (k : Nat) :
+    (evalShift L σ a st t left k).1.sp = σ.sp := by
+  unfold evalShift
+  by_cases hs : shSave st t = true
+  · simp only [hs, if_true, pullS, setTmp, pushS]
+    show σ.sp - 1 + 1 = σ.sp
+    bv_omega
+  · simp only [hs, if_false, Bool.false_eq_true]
 
 theorem evalE_sp (L : Layout) : ∀ (e : GExpr) (σ : SrcSt) (a : Byte) (st : ES) (q : SrcSt × Byte) (t : ET) (st' : ES),
     evalE L σ a st e = some (q, t, st') → q.1.sp = σ.sp := by
@@ -925,6 +1136,60 @@ theorem evalE_sp (L : Layout) : ∀ (e : GExpr) (σ : SrcSt) (a : Byte) (st : ES
         have h2 := ihr σ1 a1 s1 _ _ _ hr
         exact h2.trans h1
 
+  | sh e left k ih =>
+    intro σ a st q t st' h
+    simp only [evalE] at h
+    cases he : evalE L σ a st e with
+    | none => simp [he] at h
+    | some x =>
+      obtain ⟨⟨σ1, a1⟩, t1, s1⟩ := x
+      simp only [he] at h
+      split at h
+      · simp only [Option.some.injEq, Prod.mk.injEq] at h
+        rw [← h.1, evalShift_sp]
+        exact ih σ a st _ _ _ he
+      · cases h
+
+/-- `v = e` for a compound expression tree -/
+theorem exprStmt_exec_compound (L : Layout) (s : Cpu) (fl : Option FRef) (v : LV) (e : GExpr) (hne : ∀ a, e ≠ .atom a)
+    (hinv : FlagsInv L fl s) :
+    ∃ s', execSeq s (exprCode Opd.none (opd L) v e) = some s' ∧ srcOf s' = exprSpec L (srcOf s) v e ∧ s'.sp = s.sp ∧
+      FlagsInv L (if e.ok then some v else fl) s' := by
+  by_cases hok : e.ok = true
+  · obtain ⟨c, st', hg⟩ := (genE_ok_iff Opd.none (opd L) e hne).1 hok
+    obtain ⟨s1, q, ev, ex, hm, ha, hz⟩ := genE_exec L e {} c .acc st' hg s (by intro h; cases h)
+    have hacc : st'.acc = true := (genE_acc Opd.none (opd L) _ _ _ _ _ hg).2 rfl
+    obtain ⟨s3, e3, m3, p3, z3⟩ := storeA_exec L s1 v
+    have hirr := evalE_acc_irrelevant L e (srcOf s) s.a 0 {} (by intro h; cases h)
+    rw [ev] at hirr
+    cases h0 : evalE L (srcOf s) 0 {} e with
+    | none => rw [h0] at hirr; exact hirr.elim
+    | some y =>
+      obtain ⟨⟨σ2, a2⟩, t2, st2⟩ := y
+      obtain ⟨σq, aq⟩ := q
+      rw [h0] at hirr
+      simp only at hirr
+      obtain ⟨hσ, ht, hs, haa⟩ := hirr
+      have hsp : s1.sp = s.sp := by
+        have h1 := congrArg SrcSt.sp hm
+        have h2 := evalE_sp L _ _ _ _ _ _ _ ev
+        exact h1.trans h2
+      refine ⟨s3, ?_, ?_, by rw [p3, hsp], by simpa [hok] using z3 (hz hacc)⟩
+      · simp only [exprCode, hg, execSeq_append', ex, Option.bind_some, e3]
+      · rw [m3, hm, ha]
+        simp only [exprSpec, hok, if_true, h0]
+        rw [← hσ, ← haa hacc]
+  · have hok' : e.ok = false := by simpa using hok
+    have hng : ∀ c st', genE Opd.none (opd L) {} e ≠ some (c, .acc, st') := by
+      intro c st' h
+      exact hok ((genE_ok_iff Opd.none (opd L) e hne).2 ⟨c, st', h⟩)
+    have hcode : exprCode Opd.none (opd L) v e = [] := by
+      unfold exprCode
+      split
+      · rename_i c st' h; exact absurd h (hng c st')
+      · rfl
+    exact ⟨s, by simp [hcode, execSeq], by simp [exprSpec, hok'], rfl, by simpa [hok'] using hinv⟩
+
 /-- `v = e` for an expression tree -/
 theorem exprStmt_exec (L : Layout) (s : Cpu) (fl : Option FRef) (v : LV) (e : GExpr) (hinv : FlagsInv L fl s) :
     ∃ s', execSeq s (exprCode Opd.none (opd L) v e) = some s' ∧ srcOf s' = exprSpec L (srcOf s) v e ∧ s'.sp = s.sp ∧
@@ -932,41 +1197,8 @@ theorem exprStmt_exec (L : Layout) (s : Cpu) (fl : Option FRef) (v : LV) (e : GE
   cases e with
   | atom a =>
     refine ⟨s, by simp [exprCode, genE, execSeq], by simp [exprSpec, GExpr.ok], rfl, by simpa [GExpr.ok] using hinv⟩
-  | bin l op rr =>
-    by_cases hok : (GExpr.bin l op rr).ok = true
-    · obtain ⟨c, st', hg⟩ := (genE_ok_iff Opd.none (opd L) (.bin l op rr) (by intro a h; cases h)).1 hok
-      obtain ⟨s1, q, ev, ex, hm, ha, hz⟩ := genE_exec L (.bin l op rr) {} c .acc st' hg s (by intro h; cases h)
-      have hacc : st'.acc = true := (genE_acc Opd.none (opd L) _ _ _ _ _ hg).2 rfl
-      obtain ⟨s3, e3, m3, p3, z3⟩ := storeA_exec L s1 v
-      have hirr := evalE_acc_irrelevant L (.bin l op rr) (srcOf s) s.a 0 {} (by intro h; cases h)
-      rw [ev] at hirr
-      cases h0 : evalE L (srcOf s) 0 {} (.bin l op rr) with
-      | none => rw [h0] at hirr; exact hirr.elim
-      | some y =>
-        obtain ⟨⟨σ2, a2⟩, t2, st2⟩ := y
-        obtain ⟨σq, aq⟩ := q
-        rw [h0] at hirr
-        simp only at hirr
-        obtain ⟨hσ, ht, hs, haa⟩ := hirr
-        have hsp : s1.sp = s.sp := by
-          have h1 := congrArg SrcSt.sp hm
-          have h2 := evalE_sp L _ _ _ _ _ _ _ ev
-          exact h1.trans h2
-        refine ⟨s3, ?_, ?_, by rw [p3, hsp], by simpa [hok] using z3 (hz hacc)⟩
-        · simp only [exprCode, hg, execSeq_append', ex, Option.bind_some, e3]
-        · rw [m3, hm, ha]
-          simp only [exprSpec, hok, if_true, h0]
-          rw [← hσ, ← haa hacc]
-    · have hok' : (GExpr.bin l op rr).ok = false := by simpa using hok
-      have hng : ∀ c st', genE Opd.none (opd L) {} (.bin l op rr) ≠ some (c, .acc, st') := by
-        intro c st' h
-        exact hok ((genE_ok_iff Opd.none (opd L) (.bin l op rr) (by intro a h; cases h)).2 ⟨c, st', h⟩)
-      have hcode : exprCode Opd.none (opd L) v (.bin l op rr) = [] := by
-        unfold exprCode
-        split
-        · rename_i c st' h; exact absurd h (hng c st')
-        · rfl
-      exact ⟨s, by simp [hcode, execSeq], by simp [exprSpec, hok'], rfl, by simpa [hok'] using hinv⟩
+  | bin l op rr => exact exprStmt_exec_compound L s fl v _ (by intro a h; cases h) hinv
+  | sh e l k => exact exprStmt_exec_compound L s fl v _ (by intro a h; cases h) hinv
 
 /-- every statement, every layout, every machine state: the code ends, memory / X / Y are what the source
     prescribes, SP is untouched, and the generator's belief about the flags is true afterwards -/
@@ -997,5 +1229,177 @@ theorem rflat_correct (L : Layout) (zp : String → Bool) (st : RStmt) (fl : Opt
   | opasgW v op a =>
     obtain ⟨s', h1, h2, h3⟩ := binWCode_exec L s v op (.wvar v) a
     exact ⟨s', by simpa [rgenOps, rtemplate] using h1, by simpa [rspec] using h2, h3, by simp [flagsAfter]⟩
+
+/-- the step-by-step specification is defined wherever the generator goes through -/
+theorem evalE_defined {α : Type} (n : α) (r : Atom → α) (L : Layout) : ∀ (e : GExpr) (st : ES) (c : List (Mn × α)) (t : ET) (st' : ES)
+    (σ : SrcSt) (a : Byte), genE n r st e = some (c, t, st') → ∃ q, evalE L σ a st e = some (q, t, st') := by
+  intro e
+  induction e with
+  | atom x =>
+    intro st c t st' σ a h
+    simp only [genE, Option.some.injEq, Prod.mk.injEq] at h
+    exact ⟨(σ, a), by simp [evalE, h.2.1, h.2.2]⟩
+  | bin l op rr ihl ihr =>
+    intro st c t st' σ a h
+    simp only [genE] at h
+    cases hl : genE n r st l with
+    | none => simp [hl] at h
+    | some x =>
+      obtain ⟨cl, tl, s1⟩ := x
+      simp only [hl] at h
+      cases hr : genE n r s1 rr with
+      | none => simp [hr] at h
+      | some y =>
+        obtain ⟨cr, tr, s2⟩ := y
+        simp only [hr, arithm] at h
+        cases hp : plan s2 tl op tr with
+        | none => simp [hp] at h
+        | some p =>
+          simp only [hp, Option.map_some, Option.some.injEq, Prod.mk.injEq] at h
+          obtain ⟨q1, e1⟩ := ihl st cl tl s1 σ a hl
+          obtain ⟨q2, e2⟩ := ihr s1 cr tr s2 q1.1 q1.2 hr
+          refine ⟨evalPlan L q2.1 q2.2 op p, ?_⟩
+          simp only [evalE, e1, e2, evalArithm, hp, Option.map_some, h.2.1, h.2.2]
+
+  | sh e left k ih =>
+    intro st c t st' σ a h
+    simp only [genE] at h
+    cases he : genE n r st e with
+    | none => simp [he] at h
+    | some x =>
+      obtain ⟨c1, t1, s1⟩ := x
+      simp only [he] at h
+      by_cases hok : shiftOK s1 t1 k = true
+      · simp only [hok, if_true, Option.some.injEq, Prod.mk.injEq] at h
+        obtain ⟨q1, e1⟩ := ih st c1 t1 s1 σ a he
+        refine ⟨evalShift L q1.1 q1.2 s1 t1 left k, ?_⟩
+        simp only [evalE, e1, hok, if_true, h.2.1, h.2.2]
+      · simp [hok] at h
+
+/-- where the result is, the generator state and whether the specification is defined do not depend on the
+    machine state -/
+theorem evalE_shape (L : Layout) : ∀ (e : GExpr) (σ τ : SrcSt) (a a' : Byte) (st : ES),
+    (evalE L σ a st e).map (fun x => x.2) = (evalE L τ a' st e).map (fun x => x.2) := by
+  intro e
+  induction e with
+  | atom x => intro σ τ a a' st; simp [evalE]
+  | bin l op rr ihl ihr =>
+    intro σ τ a a' st
+    have h1 := ihl σ τ a a' st
+    simp only [evalE]
+    cases hl : evalE L σ a st l with
+    | none =>
+      cases hl' : evalE L τ a' st l with
+      | none => simp
+      | some y => simp [hl, hl'] at h1
+    | some x =>
+      cases hl' : evalE L τ a' st l with
+      | none => simp [hl, hl'] at h1
+      | some y =>
+        obtain ⟨⟨σ1, a1⟩, tl, s1⟩ := x
+        obtain ⟨⟨τ1, b1⟩, tl', s1'⟩ := y
+        simp only [hl, hl', Option.map_some, Option.some.injEq, Prod.mk.injEq] at h1
+        obtain ⟨ht, hs⟩ := h1
+        subst ht; subst hs
+        have h2 := ihr σ1 τ1 a1 b1 s1
+        simp only
+        cases hr : evalE L σ1 a1 s1 rr with
+        | none =>
+          cases hr' : evalE L τ1 b1 s1 rr with
+          | none => simp
+          | some y => simp [hr, hr'] at h2
+        | some x =>
+          cases hr' : evalE L τ1 b1 s1 rr with
+          | none => simp [hr, hr'] at h2
+          | some y =>
+            obtain ⟨⟨σ2, a2⟩, tr, s2⟩ := x
+            obtain ⟨⟨τ2, b2⟩, tr', s2'⟩ := y
+            simp only [hr, hr', Option.map_some, Option.some.injEq, Prod.mk.injEq] at h2
+            obtain ⟨ht, hs⟩ := h2
+            subst ht; subst hs
+            simp only [evalArithm]
+            cases plan s2 tl op tr <;> simp
+  | sh e left k ih =>
+    intro σ τ a a' st
+    have h1 := ih σ τ a a' st
+    simp only [evalE]
+    cases he : evalE L σ a st e with
+    | none =>
+      cases he' : evalE L τ a' st e with
+      | none => simp
+      | some y => simp [he, he'] at h1
+    | some x =>
+      cases he' : evalE L τ a' st e with
+      | none => simp [he, he'] at h1
+      | some y =>
+        obtain ⟨⟨σ1, a1⟩, t1, s1⟩ := x
+        obtain ⟨⟨τ1, b1⟩, t1', s1'⟩ := y
+        simp only [he, he', Option.map_some, Option.some.injEq, Prod.mk.injEq] at h1
+        obtain ⟨ht, hs⟩ := h1
+        subst ht; subst hs
+        simp only
+        split <;> simp
+
+/-- a quiet tree changes nothing the source can see -/
+theorem evalE_quiet (L : Layout) : ∀ (e : GExpr) (σ : SrcSt) (a : Byte) (st : ES) (q : SrcSt × Byte) (t : ET) (st' : ES),
+    quietE st e = true → evalE L σ a st e = some (q, t, st') → q.1 = σ := by
+  intro e
+  induction e with
+  | atom x =>
+    intro σ a st q t st' _ h
+    simp only [evalE, Option.some.injEq, Prod.mk.injEq] at h
+    rw [← h.1]
+  | bin l op rr ihl ihr =>
+    intro σ a st q t st' hq h
+    simp only [quietE, Bool.and_eq_true] at hq
+    obtain ⟨hql, hrest⟩ := hq
+    cases hgl : genE () (fun _ => ()) st l with
+    | none => simp [hgl] at hrest
+    | some x =>
+      obtain ⟨cl, tl, s1⟩ := x
+      simp only [hgl, Bool.and_eq_true] at hrest
+      obtain ⟨hqr, hrest2⟩ := hrest
+      cases hgr : genE () (fun _ => ()) s1 rr with
+      | none => simp [hgr] at hrest2
+      | some y =>
+        obtain ⟨cr, tr, s2⟩ := y
+        simp only [hgr] at hrest2
+        obtain ⟨q1, e1⟩ := evalE_defined () (fun _ => ()) L l st cl tl s1 σ a hgl
+        obtain ⟨q2, e2⟩ := evalE_defined () (fun _ => ()) L rr s1 cr tr s2 q1.1 q1.2 hgr
+        have h1 := ihl σ a st q1 tl s1 hql e1
+        have h2 := ihr q1.1 q1.2 s1 q2 tr s2 hqr e2
+        obtain ⟨σ1, a1⟩ := q1
+        obtain ⟨σ2, a2⟩ := q2
+        simp only at h1 h2 e2
+        simp only [evalE, e1, e2, evalArithm] at h
+        cases hp : plan s2 tl op tr with
+        | none => simp [hp] at h
+        | some p =>
+          simp only [hp, Bool.and_eq_true, Bool.not_eq_true'] at hrest2
+          obtain ⟨⟨hsp, hsv⟩, hreg⟩ := hrest2
+          simp only [hp, Option.map_some, Option.some.injEq, Prod.mk.injEq] at h
+          rw [← h.1]
+          simp only [evalPlan, hsp, hsv, Bool.false_eq_true, if_false, tmpWrite, hreg, Bool.false_and]
+          rw [h2, h1]
+  | sh e left k ih =>
+    intro σ a st q t st' hq h
+    simp only [quietE, Bool.and_eq_true] at hq
+    obtain ⟨hqe, hrest⟩ := hq
+    cases hg : genE () (fun _ => ()) st e with
+    | none => simp [hg] at hrest
+    | some x =>
+      obtain ⟨c1, t1, s1⟩ := x
+      simp only [hg, Bool.not_eq_true'] at hrest
+      obtain ⟨q1, e1⟩ := evalE_defined () (fun _ => ()) L e st c1 t1 s1 σ a hg
+      have h1 := ih σ a st q1 t1 s1 hqe e1
+      obtain ⟨σ1, a1⟩ := q1
+      simp only at h1
+      simp only [evalE, e1] at h
+      split at h
+      · simp only [Option.some.injEq, Prod.mk.injEq] at h
+        rw [← h.1]
+        simp only [evalShift, hrest, Bool.false_eq_true, if_false]
+        exact h1
+      · cases h
 
 end CV.GenReg
